@@ -14,6 +14,11 @@ KIND = {
     "CaseExpression": "KCase", "WhenClause": "KWhen", "InExpression": "KIn", "BetweenExpression": "KBetween",
     "ExistsExpression": "KExists", "SubqueryExpression": "KSubquery", "CastExpression": "KCast",
     "ListExpression": "KList", "AliasedExpression": "KAliased",
+    # statements that carry a query / an expression without being queries
+    "CreateViewStatement": "KCreateView", "CreateMaterializedViewStatement": "KCreateMView",
+    "CreateIndexStatement": "KCreateIndex", "IndexColumn": "KIndexCol",
+    "CreateTableStatement": "KCreateTable", "ColumnDef": "KColumnDef", "ColumnConstraint": "KColConstraint",
+    "TableConstraint": "KTabConstraint", "DescribeStatement": "KDescribe",
 }
 SLOT = {
     ("SelectStatement", "With"): "SWith", ("SelectStatement", "Columns.[*]"): "SColumns",
@@ -48,21 +53,33 @@ SLOT = {
     ("ExistsExpression", "Subquery"): "SSubquery", ("SubqueryExpression", "Subquery"): "SSubquery",
     ("CastExpression", "Expr"): "SExpr", ("ListExpression", "Values.[*]"): "SList",
     ("AliasedExpression", "Expr"): "SExpr",
+    ("CreateViewStatement", "Query"): "SQuery", ("CreateMaterializedViewStatement", "Query"): "SQuery",
+    ("CreateIndexStatement", "Columns.[*]"): "SColumns", ("CreateIndexStatement", "Where"): "SWhere",
+    ("CreateTableStatement", "Columns.[*]"): "SColumns", ("CreateTableStatement", "Constraints.[*]"): "SConstraints",
+    ("ColumnDef", "Constraints.[*]"): "SConstraints",
+    ("ColumnConstraint", "Default"): "SDefault", ("ColumnConstraint", "Check"): "SCheck",
+    ("TableConstraint", "Check"): "SCheck",
+    ("DescribeStatement", "Query"): "SQuery",
 }
 # attribute -> {type: field}
 ATTR = {
     "name": {"Identifier": "Name", "FunctionCall": "Name", "TableReference": "Name", "SelectStatement": "TableName",
              "InsertStatement": "TableName", "UpdateStatement": "TableName", "DeleteStatement": "TableName",
-             "CommonTableExpr": "Name", "SetClause": "Column"},
-    "qual": {"Identifier": "Table"},
+             "CommonTableExpr": "Name", "SetClause": "Column",
+             "CreateViewStatement": "Name", "CreateMaterializedViewStatement": "Name", "CreateIndexStatement": "Name",
+             "IndexColumn": "Column", "CreateTableStatement": "Name", "ColumnDef": "Name", "TableConstraint": "Name",
+             "DescribeStatement": "TableName"},
+    "qual": {"Identifier": "Table", "CreateIndexStatement": "Table"},
     "op": {"BinaryExpression": "Operator", "SetOperation": "Operator", "UnaryExpression": "Operator",
-           "JoinClause": "Type", "MergeWhenClause": "Type", "MergeAction": "ActionType"},
+           "JoinClause": "Type", "MergeWhenClause": "Type", "MergeAction": "ActionType",
+           "ColumnConstraint": "Type", "TableConstraint": "Type"},
     "val": {"LiteralValue": "Value"},
-    "typ": {"LiteralValue": "Type", "CastExpression": "Type"},
+    "typ": {"LiteralValue": "Type", "CastExpression": "Type", "ColumnDef": "Type"},
     "alias": {"TableReference": "Alias", "AliasedExpression": "Alias", "UpdateStatement": "Alias",
               "DeleteStatement": "Alias"},
 }
-LISTATTR = {"MergeAction": "Columns", "CommonTableExpr": "Columns"}
+LISTATTR = {"MergeAction": "Columns", "CommonTableExpr": "Columns", "CreateViewStatement": "Columns",
+            "CreateMaterializedViewStatement": "Columns", "TableConstraint": "Columns"}
 
 
 def cstr(s):
@@ -152,7 +169,44 @@ def emit_qslots(ct):
             "Definition em (k : kind) (s : slot) : bool :=\n"
             "  match slot_f k s with Some f => pmem (kind_ty k, f) emitted | None => false end.\n")
     changed = common.write_if_changed(os.path.join(common.GEN, "QSlots.v"), txt)
+    if not os.path.exists(os.path.join(common.GEN, "QRoots.v")):
+        emit_qroots(None)           # placeholder until lib/c16.py probes the scanner (bin/setup builds every file)
     return tb, changed
+
+
+# one statement of each statement kind of the reference grammar, carrying a time-delay call the scan must report
+# when it starts a traversal from that statement: (kind, Go type of the top-level statement, SQL)
+ROOT_PROBES = [
+    ("KSelect", "SelectStatement", "SELECT SLEEP(5) FROM t1"),
+    ("KSetOp", "SetOperation", "SELECT SLEEP(5) FROM t1 UNION ALL SELECT a FROM t2"),
+    ("KInsert", "InsertStatement", "INSERT INTO t1 (a) VALUES (SLEEP(5))"),
+    ("KUpdate", "UpdateStatement", "UPDATE t1 SET a = SLEEP(5)"),
+    ("KDelete", "DeleteStatement", "DELETE FROM t1 WHERE SLEEP(5) > 0"),
+    ("KMerge", "MergeStatement", "MERGE INTO t1 USING t2 ON SLEEP(5) > 0 WHEN MATCHED THEN DELETE"),
+    ("KCreateView", "CreateViewStatement", "CREATE VIEW zv AS SELECT SLEEP(5) FROM t1"),
+    ("KCreateMView", "CreateMaterializedViewStatement", "CREATE MATERIALIZED VIEW zmv AS SELECT SLEEP(5) FROM t1"),
+    ("KCreateIndex", "CreateIndexStatement", "CREATE INDEX zi ON t1 (a) WHERE SLEEP(5) > 0"),
+    ("KCreateTable", "CreateTableStatement", "CREATE TABLE zt (a INT DEFAULT (SLEEP(5)))"),
+    ("KDescribe", "DescribeStatement", "EXPLAIN SELECT SLEEP(5) FROM t1"),
+]
+
+
+def emit_qroots(roots):
+    """Gen/QRoots.v: scan_root k := Scanner.Scan starts a traversal from a top-level statement of kind k.
+    roots: {kind: bool} as probed on the implementation (lib/c16.py probe_roots); None = not probed yet."""
+    txt = gen.HDR
+    txt += "From GV Require Import Model.QAst.\n\n"
+    txt += ("(* Scanner.Scan (pkg/sql/security/scanner.go): for _, stmt := range tree.Statements { s.scanNode(stmt, result) }.\n"
+            "   Probed on the compiled code with one statement of each statement kind of the reference grammar\n"
+            "   (lib/qast.py ROOT_PROBES): is a time-delay call inside it reported?  Kinds outside the grammar: as the\n"
+            "   loop is written (no condition), checked by the correspondence on dumped trees only.%s *)\n"
+            % ("" if roots is not None else "\n   PLACEHOLDER: not probed yet (written by bin/setup; lib/c16.py regenerates it)"))
+    txt += "Definition scan_root (k : kind) : bool :=\n  match k with\n"
+    for k, ty, sql in ROOT_PROBES:
+        v = True if roots is None else roots.get(k, True)
+        txt += "  | %s => %s  (* %s: %s *)\n" % (k, "true" if v else "false", ty, sql)
+    txt += "  | _ => true\n  end.\n"
+    return common.write_if_changed(os.path.join(common.GEN, "QRoots.v"), txt)
 
 
 def coq_cases_parallel(jobs, timeout=900):
